@@ -41,6 +41,7 @@ class World:
         self.p._tx_seq, self.p._rx_seq = tx0, rx0
         self.tasks = {}
         self.events = []
+        self.times = []   # virtual time after each event
 
     def close(self):
         self.loop.shutdown()
@@ -113,6 +114,12 @@ class World:
                 cbs.append(self._guard(self.p.eof_received))
             elif pr == "T":
                 timer = True
+            elif pr.startswith("W="):
+                # time passes (less than up to the next deadline) with nothing happening
+                nt = self.loop.next_timer()
+                d = int(pr[2:]) / 1000.0
+                if nt is None or self.loop.time() + d < nt - 1e-3:
+                    self.loop.set_time(self.loop.time() + d)
         if timer:
             self.loop.fire_next_timer(cbs)
         else:
@@ -132,6 +139,7 @@ class World:
         st = (f"rx={p._rx_seq} tx={p._tx_seq} failed={int(p._ncp_state == ash.NcpState.FAILED)} "
               f"rf={fs(self.gw._reset_future)} sf={fs(self.gw._startup_reset_future)}")
         self.events.append((batch, self.log[start:], st))
+        self.times.append(self.loop.time())
 
 
 def run_case(tx0, rx0, batches):
@@ -155,11 +163,25 @@ RST_WIRE = "1ac038bc7e"
 
 def oracle(w):
     """C11's statements on the implementation trace (for single-caller scenarios)"""
+    import bellows.uart as _uart
+
     waiting = {}
     startup = set()
     lost = False
-    for batch, entries, st in w.events:
+    t_req = {}     # reset request -> time it was made (the one that armed the timeout: no other request pending then)
+    for (batch, entries, st), now in zip(w.events, w.times):
         prims = batch.split("+")
+        # ---- the reset timeout: an unanswered request raises TimeoutError exactly RESET_TIMEOUT after it was made, whatever
+        # else arrives meanwhile
+        for e in entries:
+            if e.startswith("RD") and e.endswith(":timeout"):
+                c = int(e[2:].split(":")[0])
+                if c in t_req and abs(now - t_req[c] - _uart.RESET_TIMEOUT) > 1e-6:
+                    return (f"reset request {c} made at t={t_req[c]:.3f} raised its timeout at t={now:.3f}, i.e. after {now - t_req[c]:.3f}s; "
+                            f"the reset timeout is {_uart.RESET_TIMEOUT}s")
+        for c, t0 in t_req.items():
+            if c in waiting and not any(e.startswith(f"RD{c}:") for e in entries) and now > t0 + _uart.RESET_TIMEOUT + 1e-6:
+                return f"reset request {c} made at t={t0:.3f} is still pending at t={now:.3f}: the reset timeout is {_uart.RESET_TIMEOUT}s"
         now_resets = [int(p[2:]) for p in prims if p.startswith("R=")]
         for e in entries:
             if e.startswith("!") or ":!" in e:
@@ -168,6 +190,8 @@ def oracle(w):
             if not waiting and "L1" not in prims and "L0" not in prims and not lost:
                 if "W" + RST_WIRE not in entries:
                     return f"reset request {c} did not write the CANCEL-prefixed RST frame 1A C0 38 BC 7E (wrote {[e for e in entries if e[0] == 'W']})"
+            if not waiting and not lost:
+                t_req[c] = now
             waiting[c] = True
         for p in prims:
             if p.startswith("S="):
@@ -230,6 +254,11 @@ def cases(ctx):
                 if i > 0:
                     cs.append((2, 6, b[: i - 1] + [b[i - 1] + "+" + loss] + b[i:]))
                     cs.append((2, 6, b[: i - 1] + [loss + "+" + b[i - 1]] + b[i:]))
+    # the reset timeout runs from the request, whatever arrives meanwhile (frames of the old session, acknowledgements, failures)
+    for mids in itertools.product(["F=D:0:0:0:aa", "F=A:0:0:1", "F=K:2:2", "F=E:2:81", "F=N:0:0:0"], repeat=2):
+        for w1, w2 in ((700, 1900), (2500, 2400), (4100, 300)):
+            cs.append((0, 0, ["R=1", f"W={w1}", mids[0], f"W={w2}", mids[1], "T", "T"]))
+            cs.append((5, 0, ["R=1", f"W={w1}", mids[0] + "+" + mids[1], "T", "R=2", "T"]))
     prims = ["R=1", "R=2", "S=3", "F=K:2:11", "F=K:2:2", "F=E:2:81", "F=A:0:0:1", "F=D:0:0:0:aa", "L1", "L0", "E", "T"]
     for _ in range(ctx.n(1500, 20000)):
         bs = []
@@ -268,7 +297,7 @@ def run(ctx):
         if bad:
             ise = "InvalidStateError" in bad
             ctx.violation(bad, {"kind": "connection-lost-invalid-state" if ise else "reset"}, {"tx": tx, "rx": rx, "batches": [b for b, _, _ in w.events]})
-        if model is not None and w.events:
+        if model is not None and w.events and not any(p.startswith("W=") for b in bs for p in b.split("+")):
             ms = model[i].split("|")
             for (b, en, st), m in zip(w.events, ms):
                 mo, mst = m.split(";")
@@ -281,7 +310,7 @@ def run(ctx):
     ctx.cov["distinct_nontrivial"] = nontriv
     ctx.cov["rule"] = ("all 256 RSTACK and all 256 ERROR codes x arrival {before the request, in time, after the timeout, twice}; all 64 (tx_seq, rx_seq) states x {software, power-on} RSTACK and a start-up waiter; "
                        "connection loss with/without exception and EOF before and after every step of eight arrival patterns, alone and batched in one loop iteration with the neighbouring event in both orders; "
-                       "random batched sequences; non-trivial = contains a loss, a timeout or a batched iteration")
+                       "a reset request left unanswered while DATA / ACK / NAK / failure frames arrive at various times before the deadline (oracle only: the timeout is raised exactly RESET_TIMEOUT after the request); random batched sequences; non-trivial = contains a loss, a timeout or a batched iteration")
     ctx.exhaustive = True
 
 
